@@ -18,11 +18,12 @@ VARIABLES l,        \* next line of the trace
           flt,      \* a source fault is scheduled in this run
           s,        \* abstract reader state
           obs, ref, \* observation stream of this run / of the first run of the pair group
+          reflost,  \* the first run of the group was cut short by a mismatch (its stream is a prefix)
           pp        \* property the pairing speaks about ("" = not paired)
-vars == <<l, fmt, chain, run, flt, s, obs, ref, pp>>
+vars == <<l, fmt, chain, run, flt, s, obs, ref, reflost, pp>>
 
 Init == /\ l = 1 /\ fmt = "" /\ chain = <<>> /\ run = 0 /\ flt = FALSE
-        /\ s = [mode |-> "lost"] /\ obs = <<>> /\ ref = <<>> /\ pp = ""
+        /\ s = [mode |-> "lost"] /\ obs = <<>> /\ ref = <<>> /\ reflost = FALSE /\ pp = ""
 
 Report(kind, viol, extra) ==
   PrintT(<<"MISMATCH", ToJson([kind |-> kind, line |-> l, run |-> run,
@@ -48,25 +49,33 @@ Reset(e) ==
   /\ s' = InitState(e.slots, e.cap)
   /\ obs' = <<>>
   /\ ref' = IF e.first THEN <<>> ELSE ref
+  /\ reflost' = IF e.first THEN FALSE ELSE reflost
 
 Call(e0) ==
   LET e == e0 @@ [fault |-> flt, pp |-> pp] IN
-  IF s.mode = "lost" THEN UNCHANGED <<fmt, chain, run, flt, s, obs, ref, pp>>
+  IF s.mode = "lost" THEN UNCHANGED <<fmt, chain, run, flt, s, obs, ref, reflost, pp>>
   ELSE LET j == Judge(fmt, chain, s, e) IN
        /\ (j.viol # {} => Report("call", j.viol, [op |-> e.op, res |-> Core(e.res), ctx |-> s.ctx, mode |-> s.mode]))
        /\ s' = IF j.viol # {} THEN [j.s EXCEPT !.mode = "lost"] ELSE j.s
+       \* the observation of a mismatching call is kept: streams are compared up to where a run was cut short
        /\ obs' = IF pp = "" THEN obs ELSE obs \o ObsOf(e)
-       /\ UNCHANGED <<fmt, chain, run, flt, ref, pp>>
+       /\ UNCHANGED <<fmt, chain, run, flt, ref, reflost, pp>>
 
+\* `cut`: this run was cut short by a mismatch (or by a panic): only the common prefix can be compared
 End(e) ==
-  LET setsbad == s.mode # "lost" /\ ~e.sets_panic /\ e.sets # s.sets
-      panicbad == s.mode # "lost" /\ e.sets_panic
-      pairbad == pp # "" /\ Rec[run].first = FALSE /\ s.mode # "lost" /\ obs # ref
+  LET cut == s.mode = "lost"
+      setsbad == ~cut /\ ~e.sets_panic /\ [u \in 1..Len(e.sets) |-> Strip(e.sets[u])] # s.sets
+      panicbad == ~cut /\ e.sets_panic
+      n == IF Len(obs) < Len(ref) THEN Len(obs) ELSE Len(ref)
+      pairbad == /\ pp # "" /\ Rec[run].first = FALSE
+                 /\ \/ SubSeq(obs, 1, n) # SubSeq(ref, 1, n)
+                    \/ (~cut /\ ~reflost /\ Len(obs) # Len(ref))
       viol == (IF setsbad THEN {<<"C04", "record_set_changed_by_a_later_call">>} ELSE {})
               \cup (IF panicbad THEN {<<"C06", "iterating_record_set_panicked">>} ELSE {})
               \cup (IF pairbad THEN {<<pp, "observations_differ_between_configurations">>} ELSE {})
   IN /\ (viol # {} => Report("end", viol, [n |-> Len(obs), nref |-> Len(ref)]))
-     /\ ref' = IF pp # "" /\ Rec[run].first THEN (IF s.mode = "lost" THEN <<[r |-> [k |-> "lost"], pos |-> <<>>]>> ELSE obs) ELSE ref
+     /\ ref' = IF pp # "" /\ Rec[run].first THEN obs ELSE ref
+     /\ reflost' = IF pp # "" /\ Rec[run].first THEN cut ELSE reflost
      /\ s' = [s EXCEPT !.mode = "lost"]
      /\ UNCHANGED <<fmt, chain, run, flt, obs, pp>>
 
